@@ -13,8 +13,8 @@ from harness.checks import c03
 from harness.common import Check, chunks, pmap, tmap, NPROC
 
 # grammar -> (height, nodes, max closed trees, max open trees, schema formulas)
-TIERS = {"quick": {"ASSGN2": (7, 22, 120, 160, 25), "XMLISH": (6, 22, 80, 120, 15), "NULLABLE": (6, 14, 40, 60, 10), "CSVISH": (7, 18, 80, 100, 8)},
-         "thorough": {"ASSGN2": (7, 30, 584, 1500, 120), "XMLISH": (7, 30, 400, 1000, 80), "NULLABLE": (8, 20, 60, 200, 40),
+TIERS = {"quick": {"ASSGN2": (7, 22, 120, 160, 25), "ASSGN2S": (7, 20, 50, 80, 12), "XMLISH": (6, 22, 80, 120, 15), "NULLABLE": (6, 14, 40, 60, 10), "CSVISH": (7, 18, 80, 100, 8)},
+         "thorough": {"ASSGN2": (7, 30, 584, 1500, 120), "ASSGN2S": (7, 26, 300, 600, 60), "XMLISH": (7, 30, 400, 1000, 80), "NULLABLE": (8, 20, 60, 200, 40),
                       "CSVISH": (7, 22, 400, 800, 40), "NUM": (6, 16, 252, 600, 40), "AMBIG": (6, 14, 30, 80, 10)}}
 PID = "C06"
 
@@ -66,6 +66,9 @@ def run(chk, units=None):
         for ui, u in enumerate(units):
             for c in chunks(u["formulas"], max(1, min(len(u["formulas"]), NPROC * 2))):
                 tasks.append({"g": u["g"], "trees": u["open"], "check": False, "formulas": [{"id": f["id"], "text": f["text"]} for f in c]})
+                if u["name"] in catalogue.SIBLING_OF:
+                    sib, inp = catalogue.SIBLING_OF[u["name"]]
+                    tasks[-1]["prelude"] = {"g": pj.grammar_to_json(catalogue.GRAMMARS[sib]), "input": inp}
                 index.append((ui, c))
         results = pmap("c03", tasks, timeout=1500)
         jobs = []
